@@ -197,5 +197,11 @@ mut("revert-f11-fast-schedule-direct-remove", ["C18", "C19"], "entry-remove-call
     ("src/io/sys/unix/mod.rs", "        #[cfg(feature = \"io_timeout\")]\n        let co = match self.del_timer(co) {\n            Some(co) => co,\n            None => return, // passed to the selector thread together with the timer\n        };\n\n        // run the coroutine",
      "        #[cfg(feature = \"io_timeout\")]\n        if let Some(h) = self.timer.borrow_mut().take() {\n            unsafe { h.with_mut_data(|value| value.data.event_data = std::ptr::null_mut()) };\n            h.remove();\n        }\n\n        // run the coroutine"))
 
+
+mut("c01-collect-global-drops-overflow", ["C01"], "no-silent-drop",
+    ("src/scheduler.rs", "            v = global.bulk_pop();\n        }\n    }", "            v = global.bulk_pop();\n            if v.len() > 48 {\n                drop(v.pop());\n            }\n        }\n    }"))
+mut("c01-atomic-option-peek", ["C01", "C02"], "surface",
+    ("src/sync/atomic_option.rs", "    #[inline]\n    pub fn clear(&self) {", "    #[inline]\n    pub fn is_some(&self) -> bool {\n        let v = self.inner.take();\n        let r = v.is_some();\n        if let Some(v) = v {\n            self.inner.store(Some(v));\n        }\n        r\n    }\n\n    #[inline]\n    pub fn clear(&self) {"))
+
 MUTANTS = M
 BENIGN = B
